@@ -16,6 +16,14 @@ PROPS = {
         "design_ref": "DESIGN.md section 7, C01",
         "assumptions": ["scalar operations are exact commutative-ring operations (rounding/overflow not modelled)", "division and remainder are uninterpreted per-element operations"],
     },
+    "C03": {
+        "claimed": True,
+        "technique": "Coq proof (computation + induction over operation sequences) over programs translated from the compiled generic code by symbolic execution",
+        "level_text": "182 entry points (Mat2/3/4 x row-/column-major): new, Index/IndexMut at every (i,j), transposed/transpose, diagonal/with_diagonal/broadcast_diagonal/trace, map/apply/map2/apply2/as_/map_rows/map_cols with abstract closures, From<other layout>, into/from row/col array(s), as_row_slice/as_col_slice, Default, row/col counts, gl_should_transpose, Display line structure, and all Mat2<->Mat3<->Mat4 conversions are translated from the real code with storage read only through the public rows/cols fields; Coq proves for ALL element values that each denotes the same abstract (row i, column j) operation in both layouts, and by induction that ANY finite sequence of matrix->matrix operations keeps a row-major and a column-major matrix denoting the same abstract matrix. Unit tests check one 4x4 transpose.",
+        "level_note": "Trusted: Coq kernel; symx translator (re-run from /repo on every check, self-checked against the same code on f64); Rust parametricity in the scalar type. Display is translated by formatting a matrix of symbols and parsing the element order and line structure. Theorems print 'Closed under the global context'.",
+        "design_ref": "DESIGN.md section 7, C03",
+        "assumptions": ["user closures are arbitrary pure functions (abstract function symbols)", "Display of the element type is injective on the symbols used (n<id>)"],
+    },
     "C06": {
         "claimed": True,
         "technique": "Coq proof (ring/field/nsatz over R) over programs translated from the compiled generic code by symbolic execution",
